@@ -310,6 +310,58 @@ def body_fast_retry(S, loop, part):
     S.note("lost", lost)
 
 
+def body_fast_overlap(S, loop, part):
+    """two callers use the confirmed-command API at the same time; the first confirmation is slow (possibly slower than the second
+    caller's retry timeout) but not lost: the second command stays off the wire until it has arrived, and each is written once"""
+    S.now_symbolic(loop)
+    lat_a = S.real("latency_a", 0.01, 2.5)
+    gap = S.real("gap", 0, 0.5)
+    timeout_b = S.real("timeout_b", 0.3, 1.5)
+    lat_b = S.real("latency_b", 0.01, 0.5)
+    S.assume(gap != lat_a)
+    c, got = _fast()
+    writes = []
+    arrived = {}
+
+    class Wr:
+        def write(self, b):
+            writes.append((loop.time(), b))
+            if b == b"DL:01\r" and "a_written" not in arrived:
+                arrived["a_written"] = loop.time()
+                loop.call_later(lat_a, lambda: (arrived.__setitem__("DL:", loop.time()), c.parse_incoming_raw_bytes(b"DL:P\r")))
+            if b == b"SL:03\r" and "b_written" not in arrived:
+                arrived["b_written"] = loop.time()
+                loop.call_later(lat_b, lambda: c.parse_incoming_raw_bytes(b"SL:P\r"))
+    c.writer = Wr()
+    c.send_queue = asyncio.Queue()
+    c.no_response_waiting.set()
+    for h in ("DL:", "SL:"):
+        c.message_processors[h] = (lambda m, _h=h: (got.append(_h + m), c.done_processing_msg_response()))
+
+    async def main():
+        task = asyncio.ensure_future(c._socket_writer())
+        ta = asyncio.ensure_future(c.send_and_wait_for_response_processed("DL:01", "DL:", timeout=10, max_retries=0))
+        await asyncio.sleep(gap)
+        tb = asyncio.ensure_future(c.send_and_wait_for_response_processed("SL:03", "SL:", timeout=timeout_b, max_retries=-1))
+        await asyncio.sleep(6)
+        for x in (task, ta, tb):
+            x.cancel()
+    loop.run_until_complete(main())
+    order = [b for _, b in writes]
+    if "DL:" not in arrived:
+        raise Violation("harness", "fast_overlap", "first command never written: %s" % order)
+    for at, b in writes[1:]:
+        if at < arrived["DL:"]:
+            raise Violation("nothing-written-until-confirmation-arrived", "FastSerialCommunicator.send_and_wait_for_response_processed",
+                            "%r written at +%s while the confirmation of DL:01 only arrived at +%s (second caller's timeout %s)" % (
+                                b, at - writes[0][0], arrived["DL:"] - writes[0][0], timeout_b))
+    if order != [b"DL:01\r", b"SL:03\r"]:
+        raise Violation("queued-commands-keep-their-order", "FastSerialCommunicator.send_and_wait_for_response_processed",
+                        "no response was lost, written %s instead of each command once in the order asked" % order)
+    S.note("nontrivial", True)
+    S.note("b_timed_out_meanwhile", bool(lat_a > gap + timeout_b))
+
+
 def setup_machine(part):
     return stubs.boot("switches")
 
@@ -483,4 +535,5 @@ def scenarios(tier):
             Scenario("fast_reports", setup_machine, body_fast_reports,
                      [dict(n=3, kinds=[0]), dict(n=3, kinds=[0], split=True), dict(n=4 if tier == "quick" else 5)],
                      teardown=teardown_machine, part_budget=pb, per_path_timeout=60),
+            Scenario("fast_overlap", setup, body_fast_overlap, [dict()], teardown=teardown, part_budget=pb, per_path_timeout=60),
             Scenario("fast_retry", setup, body_fast_retry, [dict()], teardown=teardown, part_budget=pb, per_path_timeout=60, min_nontrivial=0)]
